@@ -15,13 +15,14 @@ def build_shim(B):
     return so
 
 
-def job_script(d, bursts, exitcode=0, sig=0, pad=0, linger=0):
+def job_script(d, bursts, exitcode=0, sig=0, pad=0, linger=0, pipeline=False):
     """sh script writing numbered tokens: bursts = [(stream, count)...]; token line = 'O00001' + pad x 'x'"""
     L = ['#!/bin/sh', 'echo start >> %s/starts' % d, 'pwd > %s/pwd; umask > %s/umask; echo "$0" > %s/shell' % (d, d, d), 'cat > %s/stdin' % d,
          'P=$(printf "%%%ds" "" | tr " " x)' % pad if pad else 'P=', 'o=0; e=0']
     for s, n in bursts:
         if s == 1: L.append('i=0; while [ $i -lt %d ]; do o=$((o+1)); printf "O%%05d%%s\\n" $o "$P"; i=$((i+1)); done' % n)
         else: L.append('i=0; while [ $i -lt %d ]; do e=$((e+1)); printf "E%%05d%%s\\n" $e "$P" >&2; i=$((i+1)); done' % n)
+    if pipeline: L.append('yes | head -n 2 > /dev/null; seq 1 200000 | sed 2q > /dev/null')   # producers ended by their consumers going away, quietly
     if linger: L.append('sleep %d' % linger)          # the job outlives its time limit: the deadline ends it
     elif sig: L.append('kill -%d $$; sleep 5' % sig)
     L.append('exit %d' % exitcode)
@@ -50,10 +51,10 @@ def mail_tokens(path):
     return tokens(tmp)
 
 
-def run_one(B, shim, wd, rq, bursts, exitcode=0, sig=0, pad=0, timeout=60, extra_vtodo=(), noalarm=False, linger=0):
+def run_one(B, shim, wd, rq, bursts, exitcode=0, sig=0, pad=0, timeout=60, extra_vtodo=(), noalarm=False, linger=0, pipeline=False):
     d = tempfile.mkdtemp(prefix='x', dir=wd)
     os.makedirs(d + '/cwd')
-    open(d + '/job.sh', 'w').write(job_script(d, bursts, exitcode, sig, pad, linger))
+    open(d + '/job.sh', 'w').write(job_script(d, bursts, exitcode, sig, pad, linger, pipeline))
     open(d + '/in.txt', 'w').write(rq.get('stdin', ''))
     if rq.get('mailrc'): open(d + '/mailrc', 'w').write('%d\n' % rq['mailrc'])
     sh = rq.get('shell', '/bin/sh') if not rq.get('nospawn') else '/nonexistent/sh'
